@@ -93,7 +93,8 @@ def _davie_foster_approximation(W, H, h, levy_area_approximation, get_noise):
             H_squared = H ** 2
             std = (tenth_h * (tenth_h + H_squared.unsqueeze(-1) + H_squared.unsqueeze(-2))).sqrt()
         else:  # davie approximation
-            std = math.sqrt(_r12 * h ** 2)
+            # Variance h^2 / 12, halved as `noise` has variance 2.
+            std = math.sqrt(0.5 * _r12 * h ** 2)
         a_tilde = std * noise
         A += a_tilde
         return A
